@@ -99,3 +99,6 @@ package selftest
 
 //@ func orderAckOK
 //@   order synced_before_ok: s.tx.Sync before return nil
+
+//@ func orderNoEvent
+//@   order tx_synced_before_append: s.tx.Sync before s.cl.Append
